@@ -92,7 +92,7 @@ pub fn run(cfg: &RunCfg) -> Ctx {
     }
     all.add("srv.config_pairs_seen", pairs.len() as u64);
     all.floor("cli.trailers_only_refused", 3);
-    for k in ["srv.compressed_response", "srv.identity_response", "srv.request_refused_unimplemented", "srv.flag1_without_encoding", "srv.offer_not_enabled", "cli.request_compressed", "cli.response_refused", "cli.flag1_without_encoding", "cli.response_decompressed"] {
+    for k in ["srv.compressed_response", "srv.identity_response", "srv.request_refused_unimplemented", "srv.flag1_without_encoding", "srv.offer_not_enabled", "cli.request_compressed", "cli.request_frames_flag1", "cli.response_refused", "cli.flag1_without_encoding", "cli.response_decompressed"] {
         all.floor(k, 5);
     }
     all.floor("srv.config_pairs_seen", if cfg.thorough { 256 } else { 200 });
@@ -458,9 +458,21 @@ fn client_case(rng: &mut Rng, ctx: &mut Ctx, _idx: u64) {
         ctx.violation("request-framing", format!("{} frames for {} messages, tail {:?}", frames.len(), req_msgs.len(), tail));
     } else {
         for (f, m) in frames.iter().zip(&req_msgs) {
-            let want_flag = send.is_some() as u8;
-            if f.flag != want_flag {
-                ctx.violation("request-flag", format!("request frame flag {} with send_compressed {:?}", f.flag, send.map(|e| e.name())));
+            // flag 1 needs a configured encoding; flag 0 under a configured encoding is what a
+            // sender does that declines to expand a message (legal on the wire, not a choice of a
+            // different encoding): accepted only when compressing would not have paid off
+            match (f.flag, send) {
+                (0, None) => {}
+                (1, Some(_)) => ctx.count("cli.request_frames_flag1"),
+                (0, Some(e)) => {
+                    let raw = ref_pb_encode(&m.data, m.seq, &m.tag);
+                    if crate::refc::ref_compress(e, &raw).len() + 16 < raw.len() {
+                        ctx.violation("request-flag", format!("a compressible request message ({} bytes, {} when compressed) was sent with flag 0 although the client is configured to send {}", raw.len(), crate::refc::ref_compress(e, &raw).len(), e.name()));
+                    } else {
+                        ctx.count("cli.incompressible_sent_raw");
+                    }
+                }
+                (fl, _) => ctx.violation("request-flag", format!("request frame flag {} with send_compressed {:?}", fl, send.map(|e| e.name()))),
             }
             let pl = if f.flag == 1 { ref_decompress(send.unwrap_or(Enc::Gzip), &f.payload).ok() } else { Some(f.payload.clone()) };
             if pl.and_then(|p| ref_pb_decode_msg(&p)) != Some((m.data.clone(), m.seq, m.tag.clone())) {
